@@ -91,7 +91,8 @@ var (
 	gstep    int64
 	plan     []Preempt
 	planIdx  int
-	trace    []Switch
+	trace    [8192]Switch
+	traceN   int
 	mainWake chan struct{}
 	aborted  bool
 	// per-site hit counters for the distinct-state measure (solo and sched modes)
@@ -277,7 +278,7 @@ func SchedBegin(n int, p []Preempt) {
 	plan = p
 	planIdx = 0
 	gstep = 0
-	trace = trace[:0]
+	traceN = 0
 	mainWake = make(chan struct{}, 1)
 	aborted = false
 	cur = 0
@@ -306,7 +307,10 @@ func SchedTaskEnd(id int, choice int) {
 		raceOn()
 		return
 	}
-	trace = append(trace, Switch{From: id, To: to, Site: SiteOpBoundary, Step: gstep})
+	if traceN < len(trace) {
+		trace[traceN] = Switch{From: id, To: to, Site: SiteOpBoundary, Step: gstep}
+		traceN++
+	}
 	cur = to
 	raceOff()
 	tasks[to].wake <- struct{}{}
@@ -339,8 +343,8 @@ func SchedRun(first int, watchdog time.Duration) bool {
 //
 //go:norace
 func SchedTrace() ([]Switch, int64) {
-	out := make([]Switch, len(trace))
-	copy(out, trace)
+	out := make([]Switch, traceN)
+	copy(out, trace[:traceN])
 	return out, gstep
 }
 
@@ -379,7 +383,10 @@ func switchFrom(from, choice int, site int32) {
 	if to < 0 {
 		return
 	}
-	trace = append(trace, Switch{From: from, To: to, Site: site, Step: gstep})
+	if traceN < len(trace) {
+		trace[traceN] = Switch{From: from, To: to, Site: site, Step: gstep}
+		traceN++
+	}
 	cur = to
 	raceOff()
 	tasks[to].wake <- struct{}{}
@@ -413,17 +420,35 @@ type PushbackStat struct {
 	Calls    int `json:"calls"`
 }
 
-var pushback = map[string]*PushbackStat{}
+// No maps here: the runtime's map accessors report to the race detector even when called from a
+// //go:norace function, which would turn this bookkeeping into false race reports.
+type pushbackEntry struct {
+	kind string
+	st   PushbackStat
+}
+
+var pushback [8]pushbackEntry
+var pushbackN int
 var pushbackOverflow int
 
 // Pushback is called after the increment in bufScanner.Unscan / reader.unread.
 //
 //go:norace
 func Pushback(kind string, n, capacity int) {
-	st := pushback[kind]
+	var st *PushbackStat
+	for i := 0; i < pushbackN; i++ {
+		if pushback[i].kind == kind {
+			st = &pushback[i].st
+			break
+		}
+	}
 	if st == nil {
-		st = &PushbackStat{}
-		pushback[kind] = st
+		if pushbackN >= len(pushback) {
+			return
+		}
+		pushback[pushbackN].kind = kind
+		st = &pushback[pushbackN].st
+		pushbackN++
 	}
 	st.Calls++
 	st.Cap = capacity
@@ -445,15 +470,22 @@ func PushbackOverflows() int {
 	return n
 }
 
-// PushbackStats returns a copy of the per-ring statistics.
-//
-//go:norace
+// PushbackStats returns a copy of the per-ring statistics (call from the main goroutine only).
 func PushbackStats() map[string]PushbackStat {
 	out := map[string]PushbackStat{}
-	for k, v := range pushback {
-		out[k] = *v
+	for i := 0; i < pushbackN; i++ {
+		out[pushback[i].kind] = pushback[i].st
 	}
 	return out
+}
+
+// ResetPushbackMax clears the per-ring maxima (so that depth probes are per run).
+//
+//go:norace
+func ResetPushbackMax() {
+	for i := 0; i < pushbackN; i++ {
+		pushback[i].st.Max = 0
+	}
 }
 
 // ---------------------------------------------------------------------------------------------
@@ -483,7 +515,8 @@ type MapSiteStat struct {
 	MaxN  int `json:"max_n"`
 }
 
-var mapStats []MapSiteStat
+var mapStats [512]MapSiteStat
+var mapStatsN int
 
 func SetOrder(p OrderPolicy) { order = p }
 
@@ -495,17 +528,18 @@ func ResetMapStats() {
 }
 
 func MapSiteStats() []MapSiteStat {
-	out := make([]MapSiteStat, len(mapStats))
-	copy(out, mapStats)
+	out := make([]MapSiteStat, mapStatsN)
+	copy(out, mapStats[:mapStatsN])
 	return out
 }
 
 //go:norace
 func mapStat(site int32, n int) {
-	if int(site) >= len(mapStats) {
-		ns := make([]MapSiteStat, site+1)
-		copy(ns, mapStats)
-		mapStats = ns
+	if site < 0 || int(site) >= len(mapStats) {
+		return
+	}
+	if int(site) >= mapStatsN {
+		mapStatsN = int(site) + 1
 	}
 	st := &mapStats[site]
 	st.Calls++
